@@ -89,7 +89,9 @@ fn yes() -> bool {
 
 // (the last two: long directory names outside ASCII - 2- and 3-byte characters - so that any byte offset computed
 // from the end of the path is likely to fall inside a character)
-pub const FIXED_PATTERNS: [&str; 8] = [
+pub const FIXED_PATTERNS: [&str; 9] = [
+    // (a blank at either end of a pattern is part of the name)
+    " b.{}.log ",
     "a.{}.log",
     "arch/{}/a.log",
     "a.{}.log.gz",
